@@ -214,13 +214,17 @@ def systematic_resample(
     if abs(np.sum(weights) - 1.0) > SQRTEPS:
         weights = np.array(weights) / np.sum(weights)
 
-    positions = (np.random.random() + np.arange(size)) / size
+    offset = np.random.random()
 
     j = 0
     cumulative_sum = weights[0]
     indeces = np.empty(size, dtype=int)
     for i in range(size):
-        while j < len(weights) - 1 and positions[i] >= cumulative_sum:
+        # Tooth i of the comb is (offset + i) / size; it lies at or beyond the end of
+        # cell j iff offset >= size * cumulative_sum - i. Compared in this form the
+        # offset is never rounded: forming (offset + i) rounds up to i + 1 for an
+        # offset within 2**-53 of 1, which moved the tooth into the next cell.
+        while j < len(weights) - 1 and offset >= size * cumulative_sum - i:
             j += 1
             cumulative_sum += weights[j]
         indeces[i] = j
